@@ -363,7 +363,20 @@ def rate_definitions(ctx):
         ctx.check(ok_, "temporal:" + nm, "value-shape", f.loc(), nm + " = current cumulative - archived cumulative", nm + " returns " + str(last))
 
 
+def every_context_refreshed(ctx):
+    """Shared by C15 and C18 (Senpai decides on the per-tick pressure / usage readings): OomdContext::refresh visits every cached context."""
+    from ..misc import double_advance
+    P, cg = ctx.prog, ctx.cg
+    orf = ctx.fn1("Oomd::OomdContext::refresh")
+    da = double_advance(P, cg, orf)
+    ctx.check(not da, "context-refresh:every-context-visited", "at_most_once (iterator advance per iteration)", orf.loc(da[0][0]) if da else orf.loc(),
+              "every cached context is visited: the iterator advances once per iteration (erase() already yields the next element)",
+              (da[0][1] if da else "") + " - the cached cgroup after a removed one is not refreshed on that tick and keeps serving last tick's values and identity")
+
+
 def run(ctx):
+    borrowed_fd_not_consumed(ctx)
+    iostat_line_accepted_as_parsed(ctx)
     P, cg = ctx.prog, ctx.cg
     # ------------------------------------------------ cached accessors
     n = 0
@@ -478,11 +491,7 @@ def run(ctx):
     orf = ctx.fn1("Oomd::OomdContext::refresh")
     bad = erase_in_iteration(P, orf, cg)
     ctx.check(not bad, "context-refresh:erase-safe", "erase_in_iteration", orf.loc(), "invalid contexts are erased without using an invalidated iterator", bad[0][1] if bad else "")
-    from ..misc import double_advance
-    da = double_advance(P, cg, orf)
-    ctx.check(not da, "context-refresh:every-context-visited", "at_most_once (iterator advance per iteration)", orf.loc(da[0][0]) if da else orf.loc(),
-              "every cached context is visited: the iterator advances once per iteration (erase() already yields the next element)",
-              (da[0][1] if da else "") + " - the cached cgroup after a removed one is not refreshed on that tick and keeps serving last tick's values and identity")
+    every_context_refreshed(ctx)
     er = orf.calls("erase")
     rfc = orf.calls("CgroupContext::refresh")
     fo = Flow(P, orf, cg=cg)
@@ -590,3 +599,91 @@ def run(ctx):
     t = " ".join(Xg(gc.nodes[r]["val"]) for r in returns(gc) if "val" in gc.nodes[r])
     ctx.check(("Oomd::Fs::readDirAt(this->fd(), " in t or "Oomd::Fs::readDirAt(this->cgroup_dir_, " in t) and ".dirs" in t.replace("->->", "->").replace("->", "."), "children-from-held-fd", "provenance", gc.loc(), "children are the directories listed through the held fd",
               "children are " + t[:120])
+
+
+def const_int(fn, i):
+    """Integer value of expression i if the front end could fold it (literals, constexpr names, arithmetic over them)."""
+    n = fn.nodes[fn.strip(i)]
+    if "cval" in n:
+        return int(n["cval"])
+    if n["k"] == "lit" and n.get("lk") in ("int", "integer") or (n["k"] == "lit" and re.match(r"^-?\d+[uUlL]*$", str(n.get("v", "")))):
+        try:
+            return int(re.sub(r"[uUlL]+$", "", str(n.get("v"))), 0)
+        except ValueError:
+            return None
+    if n["k"] == "un" and n.get("op") == "-":
+        v = const_int(fn, n["sub"])
+        return -v if v is not None else None
+    return None
+
+
+def _disjuncts(fn, i):
+    n = fn.nodes[fn.strip(i)]
+    if n["k"] == "bin" and n.get("op") == "||":
+        return _disjuncts(fn, n["l"]) + _disjuncts(fn, n["r"])
+    return [fn.strip(i)]
+
+
+def iostat_line_accepted_as_parsed(ctx):
+    """io.stat 'parses exactly': a line whose eight fields were scanned is accepted.  An additional rejecting test on the scanned values may
+    only refuse what the kernel cannot print: negative numbers, a major of 2^12 or more, a minor of 2^20 or more (dev_t is 12 + 20 bits).
+    The bounds are read as constants (constexpr names and shifts folded by the front end)."""
+    P = ctx.prog
+    f = ctx.fn1("Oomd::Fs::readIostatAt")
+    sc = [i for i in f.calls("sscanf")]
+    if len(sc) != 1:
+        ctx.broken("iostat:line-accepted-as-parsed", "anchor", f.loc(), "expected one sscanf in readIostatAt")
+        return
+    outs = []
+    for a in f.nodes[sc[0]].get("args", [])[2:]:
+        an = f.nodes[f.strip(a)]
+        outs.append(f.text(an["sub"]) if an["k"] == "un" and an.get("op") == "&" else f.text(a))
+    LIMIT = {0: 1 << 12, 1: 1 << 20}
+    lp = [l for l in loops(f) if f.pos_of(sc[0]) is not None and f.pos_of(sc[0])[0] in l["body"]]
+    bad, unknown, n_err = [], [], 0
+    for r in f.all("return"):
+        if f.pos_of(r) is None or not lp or lp[0].get("stmt") not in list(f.ancestors(r)) or "systemError(" not in ret_text(f, r):
+            continue
+        # the if statement the return sits in
+        cond = None
+        for a_ in f.ancestors(r):
+            an = f.nodes[a_]
+            if an["k"] == "if":
+                cond = an.get("c")
+                break
+        if cond is None:
+            unknown.append(f.loc(r))
+            continue
+        n_err += 1
+        for at in _disjuncts(f, cond):
+            n = f.nodes[at]
+            t = f.text(at)
+            which = [k for k, o in enumerate(outs) if re.search(r"(?<![\w.])%s(?![\w])" % re.escape(o), t)]
+            if not which:
+                continue            # the field-count test and the like
+            if n["k"] != "bin" or n.get("op") not in ("<", "<=", ">", ">=", "==", "!="):
+                unknown.append("%s at %s" % (t[:60], f.loc(at)))
+                continue
+            lt, rt_ = f.text(n["l"]), f.text(n["r"])
+            var_left = any(re.fullmatch(re.escape(o), lt.strip("()")) for o in outs)
+            c = const_int(f, n["r"] if var_left else n["l"])
+            op = n["op"] if var_left else {"<": ">", "<=": ">=", ">": "<", ">=": "<=", "==": "==", "!=": "!="}[n["op"]]
+            if c is None or len(which) != 1:
+                unknown.append("%s at %s" % (t[:60], f.loc(at)))
+                continue
+            k = which[0]
+            if op in ("<", "<=") and (c <= 0 if op == "<" else c < 0):
+                continue            # negative values only
+            lim = LIMIT.get(k)
+            if op in (">", ">=") and lim is not None and (c >= lim if op == ">=" else c >= lim - 1):
+                continue            # beyond what dev_t can hold
+            bad.append("%s (rejects %s %s %d) at %s" % (t[:70], outs[k], op, c, f.loc(at)))
+    inst = "iostat:line-accepted-as-parsed"
+    if bad:
+        ctx.violation(inst, "value-shape (constants folded)", f.loc(sc[0]),
+                      "a well-formed io.stat line is refused: " + "; ".join(bad) + " - the kernel prints majors up to 4095 and minors up to 1048575 and "
+                      "64-bit counters; the whole read fails and the cgroup's io statistics (io cost included) become unavailable")
+    elif unknown:
+        ctx.broken(inst, "value-shape (constants folded)", f.loc(sc[0]), "cannot evaluate the extra test(s) on scanned io.stat fields: " + "; ".join(unknown))
+    else:
+        ctx.ok(inst, "value-shape (constants folded)", f.loc(sc[0]), "the only refusals of a scanned line are for values the kernel cannot print (%d rejecting exit(s) in the line loop)" % n_err)
